@@ -510,6 +510,16 @@ def run_chain(case, stt):
                 ok_np = True
             except (TypeError, ValueError) as e:
                 ok_np, exc = False, type(e)
+            if not ok_np and dask_backed and issubclass(exc, ValueError):
+                # a value-dependent refusal (integer to a negative power) can only come when the graph is computed: the lazy signal accepts
+                # the operation and its data raise on compute, exactly like the plain Dask array; the chain ends here
+                def lazy_then_compute():
+                    IOPS[opn](a, other)
+                    np.asarray(a.data)
+
+                must_raise("in-place %s on Dask data that NumPy refuses by value, raised when computed" % opn, lazy_then_compute, (ValueError,))
+                refused += 1
+                break
             if not ok_np:
                 keep = values(a.data).copy()
                 must_raise("in-place %s that NumPy refuses for the data (%s with %s)" % (opn, dt, ok), lambda: IOPS[opn](a, other),
